@@ -33,7 +33,25 @@ def plan(tier, seed):
     return [{"seed": seed, "chunk": i, "thorough": tier != "quick"} for i in range(nseeds)]
 
 
+def redefinition_seed(r):
+    """a program name defined several times with different parameter counts; calls that match the latest one"""
+    lines = []
+    ar = []
+    k = r.randint(2, 3)
+    for i in range(k):
+        a = r.randint(0, 2)
+        ar.append(a)
+        ps = ["p%d" % j for j in range(a)]
+        lines += ["PROGRAM", "f0"] + (["IN"] + ", ".join(ps).replace(",", " ,").split() if ps else []) + ["DO", "x0", ":=", r.choice(ps + ["1"]), "END"]
+        if r.random() < 0.5:
+            lines += ["PROGRAM", "f1", "DO", "x0", ":=", "RUN", "f0", "WITH"] + " , ".join(["1"] * a).split() + ["END", "END"]
+    lines += ["x", ":=", "RUN", "f0", "WITH"] + " , ".join(["3"] * ar[-1]).split() + ["END"]
+    return lines
+
+
 def seed_program(r):
+    if r.random() < 0.3:
+        return redefinition_seed(r)
     o = programs.Opts(max_defs=2, main_len=(1, 4), body_len=(1, 3), max_depth=2, init_vars=False, p_label=0.3)
     for _ in range(50):
         g = programs.Gen(r, o)
